@@ -18,6 +18,8 @@ _state = {"home": None, "seam": None, "lib": None, "frontend": False}
 
 
 def scratch_root():
+    if _state["home"] is None and os.environ.get("SSESIM_HOME"):
+        _state["home"] = os.environ["SSESIM_HOME"]  # a second interpreter continuing on the directory of the first (real restart)
     if _state["home"] is None:
         base = "/dev/shm" if os.path.isdir("/dev/shm") and os.access("/dev/shm", os.W_OK) else None
         home = tempfile.mkdtemp(prefix="ssesim-", dir=base)
